@@ -42,11 +42,12 @@ impl Val {
     pub fn any(g: &mut Gen) -> Val {
         match g.below(8) {
             0 | 1 => Val::U(g.u64()),
-            2 => { let n = *g.pick(&[0usize, 1, 22, 23, 24, 254, 255, 256, 1000]); Val::S("x".repeat(n)) }
+            // (long payloads carry position-dependent content: a lost, repeated or displaced stretch changes the value)
+            2 => { let n = *g.pick(&[0usize, 1, 22, 23, 24, 254, 255, 256, 1000]); let k = g.below(26); Val::S((0 .. n).map(|i| (b'a' + ((i * 7 + i / 26 + k) % 26) as u8) as char).collect()) }
             3 => Val::S(g.string(40)),
-            4 => { let n = *g.pick(&[0usize, 1, 23, 24, 255, 256, 4000]); Val::B(vec![g.byte(); n]) }
+            4 => { let n = *g.pick(&[0usize, 1, 23, 24, 255, 256, 4000]); let k = g.byte() as usize; Val::B((0 .. n).map(|i| (i * 31 + i / 256 + k) as u8).collect()) }
             5 => Val::B(g.bytes(300)),
-            6 => { if g.chance(20) { Val::B(vec![0x5a; 70_000]) } else { Val::S(g.string(10)) } }
+            6 => { if g.chance(20) { Val::B((0 .. 70_000usize).map(|i| (i * 131 + i / 256) as u8).collect()) } else { Val::S(g.string(10)) } }
             _ => Val::R(Rec { a: g.u32(), s: g.string(20), o: if g.bool() { Some(g.i16()) } else { None }, v: g.bytes(50) })
         }
     }
